@@ -399,6 +399,11 @@ class CallMixin:
                         continue
                     st.heap[name] = z3.Const("H%d!%s!%d" % (ep, name, self.bump()), st.heap[name].sort())
                 continue
+            if d == "#NTOP":
+                # a callee that makes opaque calls also changes the engine-private "most recent opaque call" ghosts
+                for nm in ("#LASTARGS", "#LASTKWDOM", "#LASTKWMAP", "#LASTF"):
+                    arr = self.harr(st, nm)
+                    st.heap[nm] = self.fresh("hv" + nm[1:], arr.sort())
             if d.startswith("#"):
                 if "[" in d:
                     gname, idx = d[:-1].split("[", 1)
@@ -479,7 +484,7 @@ class CallMixin:
             for gname, ghint in c.extra.get("ghosts", {}).items():
                 s.frames[fid][gname] = self.sym(s, "gh_" + gname, ghint)
             # ghost snapshots the *caller's* contract asks for at this call site (witnesses for its own ensures)
-            if self.cur is not None and s.depth == 0:
+            if self.cur is not None:
                 for gname, gsrc in self.cur.extra.get("snapshots", {}).get("%s#%d" % (name, n), []):
                     gv = self.spec_value(s, gsrc, fid, s.heap0, None, {})
                     s.frames[self.root_fid][gname] = gv
@@ -548,7 +553,7 @@ class CallMixin:
     def run_after(self, s, which, name, n, fid, old_heap, entry, res):
         """ghost updates the verified function's contract attaches to a call site (witnesses / ghost accumulators);
         the expressions see the callee's parameters and ghost outputs, then the caller's ghost variables"""
-        if self.cur is None or s.depth != 0:
+        if self.cur is None:
             return
         items = self.cur.extra.get(which, {}).get("%s#%d" % (name, n), []) + self.cur.extra.get(which, {}).get(name + "#*", [])
         if not items:
@@ -616,6 +621,10 @@ class CallMixin:
                         fr[p] = self.const(defaults[p])
                     else:
                         raise Unsupported("missing argument %s for interface %s" % (p, key))
+            sq0 = self.mkseq([box(self.heapify(st, fr[p])) for p in names])
+            for nm, val in (("#LASTARGS", sq0), ("#LASTKWDOM", z3.K(Val, z3.BoolVal(False))), ("#LASTKWMAP", z3.K(Val, NoneV)), ("#LASTF", box(recv))):
+                self.harr(st, nm)
+                st.heap[nm] = val
         else:
             sq, dom, mp = self.pack_args(st, pos, kw, star, starkw)
             fr = {"self": recv, "args": self.new_tuple_obj(st, sq), "kwargs": self.new_dict(st, dom, mp)}
